@@ -12,7 +12,7 @@ Local Open Scope N_scope.
    file: for every tree and every pattern list. *)
 Theorem resolve_sound : forall root pats l p d,
   resolve root pats = Ok l -> In (p, d) l -> Embeds root pats p d.
-Proof. exact resolve_sound_l. Qed.
+Proof. exact (resolve_sound_l true). Qed.
 Print Assumptions resolve_sound.
 
 (* Every file the rules select (directly, or below a selected directory with
@@ -22,7 +22,7 @@ Print Assumptions resolve_sound.
 Theorem resolve_complete : forall root pats l p d,
   resolve root pats = Ok l -> Embeds root pats p d ->
   exists d', In (p, d') l /\ Embeds root pats p d'.
-Proof. exact resolve_complete_l. Qed.
+Proof. exact (resolve_complete_l true). Qed.
 Print Assumptions resolve_complete.
 
 (* The result is strictly sorted by name (Go string order), hence duplicate free. *)
@@ -30,35 +30,43 @@ Theorem resolve_sorted_nodup : forall root pats l,
   resolve root pats = Ok l ->
   StronglySorted (fun a b => str_ltb (fst a) (fst b) = true) l /\ NoDup (map fst l).
 Proof.
-  intros root pats l H. pose proof (resolve_sorted_l _ _ _ H) as S.
+  intros root pats l H. pose proof (resolve_sorted_l true _ _ _ H) as S.
   split; [exact S | now apply sorted_nodup].
 Qed.
 Print Assumptions resolve_sorted_nodup.
 
-(* The directive is refused exactly when some pattern is refused by the rules
-   goembed.go implements: bad syntax / invalid path, nothing selected, or a
-   selected entry that lies in another module, has or lies below an invalid
-   name, is irregular (symlink, fifo...) or is a directory without any
-   embeddable file. *)
+(* The directive is refused exactly when some pattern is refused by the go
+   tool's rules: bad syntax / invalid path, nothing selected, or a selected
+   entry that lies in another module, is reached through a non-directory
+   (symbolic link), has or lies below an invalid name, is irregular (symlink,
+   fifo...) or is a directory without any embeddable file. *)
 Theorem resolve_rejects_iff : forall root pats,
-  (exists e, resolve root pats = Err e) <-> Exists (PatternRejected root) pats.
-Proof. exact resolve_rejects_l. Qed.
+  (exists e, resolve root pats = Err e) <-> Exists (PatternRejected true root) pats.
+Proof. exact (resolve_rejects_l true). Qed.
 Print Assumptions resolve_rejects_iff.
 
-(* ... but the go tool has one more rule (cmd/go: "in non-directory"): the
-   selected path must not run through a symbolic link.  The model, like the
-   code, embeds through it.  The harness replays this witness on the real
-   ResolvePatterns and on go list (finding embed-symlinked-parent-accepted). *)
-Theorem rejects_through_symlink_refuted :
+(* in particular (cmd/go: "in non-directory"): a pattern whose selected path
+   runs through something that is not a directory itself is refused *)
+Theorem rejects_through_non_directory : forall root pats pat chain,
+  In pat pats -> Selects root (split_slash (snd (cut_all pat))) chain -> ThroughLink chain ->
+  exists e, resolve root pats = Err e.
+Proof. exact rejects_nondir_l. Qed.
+Print Assumptions rejects_through_non_directory.
+
+(* The code before the fix (resolve_gen false: no non-directory test) embedded
+   through a symlinked parent directory; the same input is now refused with
+   the go tool's error class.  The harness replays it as case w00000. *)
+Theorem through_symlink_before_fix_refuted :
   exists root pat l chain,
-    resolve root [pat] = Ok l /\ l <> []
-    /\ Selects root (split_slash (snd (cut_all pat))) chain /\ ThroughLink chain.
+    resolve_gen false root [pat] = Ok l /\ l <> []
+    /\ Selects root (split_slash (snd (cut_all pat))) chain /\ ThroughLink chain
+    /\ resolve root [pat] = Err E_NONDIR.
 Proof.
-  destruct symlink_parent_witness as [H (chain & HS & HT)].
+  destruct symlink_parent_witness as (H & H2 & chain & HS & HT).
   exists wit_root, [108; 47; 102; 46; 116; 120; 116], [([108; 47; 102; 46; 116; 120; 116], [104; 105])], chain.
   repeat split; try assumption. discriminate.
 Qed.
-Print Assumptions rejects_through_symlink_refuted.
+Print Assumptions through_symlink_before_fix_refuted.
 
 Example resolve_nontrivial :
   (* a/{x.txt,.h,_u/y,sub/{go.mod,z},d/w}, b.txt; patterns a and all:a/_u *)
@@ -123,8 +131,8 @@ Example fs_nontrivial :
 Proof. split; vm_compute; reflexivity. Qed.
 
 (* ---------- the directive arguments ---------- *)
-(* Any list of patterns, each written bare (no blank, not starting with a
-   quote), back-quoted (no back quote, no CR) or double-quoted with \ and the
+(* Any list of patterns, each written bare (ASCII without white space, not
+   starting with a string quote), back-quoted (no back quote, no CR) or double-quoted with \ and the
    quote escaped (ASCII without newline), joined by spaces, is split and
    unquoted back into exactly that list. *)
 Theorem args_roundtrip : forall qs : list (style * str),
